@@ -169,6 +169,8 @@ func runRewriteKind(c *core.Ctx) []core.Obligation {
 						b.addP(props, core.Violation, key, c.InstrPos(ci), fmt.Sprintf("a template value for a %s field is written by %s as %s, but the codec of that kind reads %s: the rewritten message does not decode", k, f.Name(), wire, want.wire))
 					case zz != want.zigzag:
 						b.addP(props, core.Violation, key, c.InstrPos(ci), fmt.Sprintf("a template value for a %s field is written by %s with zig-zag=%v, but that kind is zig-zag encoded: %v (only sint32/sint64 are): the field decodes to a different value", k, f.Name(), zz, want.zigzag))
+					case want.zigzag && signedCtor(calleeNames(f, nil)):
+						b.addP(props, core.Violation, key, c.InstrPos(ci), fmt.Sprintf("a template value for a %s field is zig-zag encoded by %s and then handed to a signed varint constructor (Int32/Int64), which sign-extends: zig-zag values with the top bit set (|v| >= 2^30 for sint32) become ten-byte varints that the codec rejects as overflowing", k, f.Name()))
 					case k == "Sint32" && !zigzag32OK(f, nil):
 						b.addP(props, core.Violation, key, c.InstrPos(ci), fmt.Sprintf("a template value for a sint32 field is zig-zag encoded by %s at 64 bits from a value that is not sign-extended through int32: a negative value becomes a varint above 32 bits, which the codec rejects", f.Name()))
 					default:
@@ -220,6 +222,9 @@ func runRewriteKind(c *core.Ctx) []core.Obligation {
 			}
 			if zzDec != want.zigzag {
 				problems = append(problems, fmt.Sprintf("zig-zag decodes the input: %v, required: %v (the mask must be or'ed into the value, not into its zig-zag form)", zzDec, want.zigzag))
+			}
+			if want.zigzag && signedCtorAfterZigZag(fn, blocks) {
+				problems = append(problems, "hands the zig-zag encoded result to a signed varint constructor (Int32/Int64), which sign-extends values with the top bit set")
 			}
 			if k == "Sint32" && zzEnc && !zigzag32OK(fn, blocks) {
 				problems = append(problems, "zig-zag encodes the result at 64 bits from a value that is not sign-extended through int32: with an unsigned 32-bit mask type a negative field value becomes a varint above 32 bits, which the codec rejects")
@@ -312,6 +317,44 @@ func runRewriteKind(c *core.Ctx) []core.Obligation {
 		b.addP(props, core.Undecided, "rewritekind:type", "-", "proto.structTypeOf not found")
 	}
 	return b.out
+}
+
+// signedCtor: the callees include a signed varint constructor and no unsigned one.
+func signedCtor(names map[string]bool) bool {
+	return (names["Int32"] || names["Int64"]) && !(names["Uint32"] || names["Uint64"])
+}
+
+// signedCtorAfterZigZag: an Int32/Int64 constructor call whose argument derives from an
+// encodeZigZag* call, within the given blocks.
+func signedCtorAfterZigZag(fn *ssa.Function, blocks map[*ssa.BasicBlock]bool) bool {
+	for _, blk := range fn.Blocks {
+		if blocks != nil && !blocks[blk] {
+			continue
+		}
+		for _, in := range blk.Instrs {
+			call, ok := in.(*ssa.Call)
+			if !ok {
+				continue
+			}
+			f := staticCallee(call.Common())
+			if f == nil || (f.Name() != "Int32" && f.Name() != "Int64") {
+				continue
+			}
+			for _, a := range call.Call.Args {
+				if dependsOn(a, func(x ssa.Value) bool {
+					c2, isC := x.(*ssa.Call)
+					if !isC {
+						return false
+					}
+					g := staticCallee(c2.Common())
+					return g != nil && strings.HasPrefix(g.Name(), "encodeZigZag")
+				}) {
+					return true
+				}
+			}
+		}
+	}
+	return false
 }
 
 // zigzag32OK: within the given blocks of fn (all when nil), a sint32 value is zig-zag encoded at
